@@ -33,6 +33,22 @@ def dataOf (a : Args) (s : Shape) : Option (List Int) :=
 def fmtPairs (l : List (Nat × Nat)) : String :=
   if l.isEmpty then "[]" else ";".intercalate (l.map (fun p => s!"{p.1},{p.2}"))
 
+/-- decimal text with 12 fractional digits (`toString` keeps 6 only); values here are far below 2^63 -/
+def fmtFloat (y : Float) : String :=
+  if y.isNaN then "nan"
+  else if y.isInf then (if y < 0 then "-inf" else "inf")
+  else
+    let a := y.abs
+    let ip := a.floor
+    let fp := ((a - ip) * 1000000000000.0).round
+    let (ip, fp) := if fp ≥ 1000000000000.0 then (ip + 1.0, 0.0) else (ip, fp)
+    let fs := toString fp.toUInt64
+    let pad := String.ofList (List.replicate (12 - fs.length) '0')
+    (if y < 0 then "-" else "") ++ toString ip.toUInt64 ++ "." ++ pad ++ fs
+
+def fmtFloats (l : List Float) : String :=
+  if l.isEmpty then "[]" else ",".intercalate (l.map fmtFloat)
+
 def handle : Handler := fun op a =>
   match op with
   | "reduce" => orBad do
@@ -58,6 +74,34 @@ def handle : Handler := fun op a =>
       match evalFlat v with
       | none => pure "ub"
       | some l => pure s!"ok shape={fmtNats v.shape} data={fmtInts l}"
+  | "mean" => orBad do
+      -- abstract ops instantiated with IEEE double: add = +, divn x n = x / n
+      let s ← a.nats "shape"
+      let axis ← a.optInts "axis"
+      let keep := (a.get? "keepdims") == some "1"
+      let data ← dataOf a s
+      let arr : Arr Float := ⟨s, fun i => Float.ofInt ((arrOfData s data).get i)⟩
+      match mean (· + ·) (fun x n => x / n.toFloat) arr axis keep with
+      | none => pure "ub"
+      | some v =>
+        match evalFlat v with
+        | none => pure "ub"
+        | some l => pure s!"ok shape={fmtNats v.shape} data={fmtFloats l}"
+  | "vector_norm" => orBad do
+      let s ← a.nats "shape"
+      let axis ← a.optInts "axis"
+      let keep := (a.get? "keepdims") == some "1"
+      let ord ← a.nat "ord"
+      let data ← dataOf a s
+      let arr : Arr Float := ⟨s, fun i => Float.ofInt ((arrOfData s data).get i)⟩
+      let pre := fun (x : Float) => Float.pow x.abs ord.toFloat
+      let post := fun (y : Float) => Float.pow y (1.0 / ord.toFloat)
+      match vectorNorm (· + ·) pre post arr axis keep with
+      | none => pure "ub"
+      | some v =>
+        match evalFlat v with
+        | none => pure "ub"
+        | some l => pure s!"ok shape={fmtNats v.shape} data={fmtFloats l}"
   | "remove_dims" => orBad do
       let s ← a.nats "shape"
       let axis ← a.optInts "axis"
